@@ -118,7 +118,8 @@ type Net struct {
 	actBlock int64 // activation block number of the run's eon
 	ref      *puredkg.Result
 	refIdx   int
-	ids      []string          // identity names of the current schedule
+	rounds   [][]string        // identity lists of the current schedule, one per trigger round
+	ids      []string          // all identity names of the current schedule
 	idBytes  map[string][]byte // their preimages
 	enc      map[string]*shcrypto.EncryptedMessage
 	plain    []byte
@@ -278,8 +279,8 @@ func (n *Net) Handover() J {
 }
 
 // Begin starts a schedule with fresh identities: the same eon, a new decryption trigger.
-func (n *Net) Begin(ids []string, label string) {
-	n.ids = ids
+func (n *Net) Begin(rounds [][]string, ids []string, label string) {
+	n.rounds, n.ids = rounds, ids
 	n.idBytes = map[string][]byte{}
 	n.enc = map[string]*shcrypto.EncryptedMessage{}
 	n.inflight, n.prod = nil, nil
@@ -294,12 +295,35 @@ func (n *Net) Begin(ids []string, label string) {
 	}
 }
 
-func (n *Net) identities() []identitypreimage.IdentityPreimage {
+// identities returns the identity list of round r (1-based).
+func (n *Net) identities(r int) []identitypreimage.IdentityPreimage {
 	var l []identitypreimage.IdentityPreimage
-	for _, id := range n.ids {
+	if r < 1 || r > len(n.rounds) {
+		return l
+	}
+	for _, id := range n.rounds[r-1] {
 		l = append(l, identitypreimage.IdentityPreimage(n.idBytes[id]))
 	}
 	return l
+}
+
+// roundOf returns the round whose identity list is exactly the given preimages (0 if none).
+func (n *Net) roundOf(pre [][]byte) int {
+	for r, ids := range n.rounds {
+		if len(ids) != len(pre) {
+			continue
+		}
+		ok := true
+		for k, id := range ids {
+			if !bytes.Equal(n.idBytes[id], pre[k]) {
+				ok = false
+			}
+		}
+		if ok {
+			return r + 1
+		}
+	}
+	return 0
 }
 
 func (n *Net) idName(b []byte) string {
@@ -328,12 +352,22 @@ func (n *Net) abstract(from int, msg p2pmsg.Message) AbsMsg {
 	switch m := msg.(type) {
 	case *p2pmsg.DecryptionKeyShares:
 		a.T = "shares"
-		if int(m.KeyperIndex) != from || len(m.Shares) != len(n.ids) || int64(m.Eon) != n.cfgIdx {
+		var pre [][]byte
+		for _, sh := range m.Shares {
+			pre = append(pre, sh.IdentityPreimage)
+		}
+		a.R = n.roundOf(pre)
+		if int(m.KeyperIndex) != from || a.R == 0 || int64(m.Eon) != n.cfgIdx {
 			a.T = "shares?"
 		}
 	case *p2pmsg.DecryptionKeys:
 		a.T = "keys"
-		if len(m.Keys) != len(n.ids) || int64(m.Eon) != n.cfgIdx || m.Extra != nil {
+		var pre [][]byte
+		for _, k := range m.Keys {
+			pre = append(pre, k.IdentityPreimage)
+		}
+		a.R = n.roundOf(pre)
+		if a.R == 0 || int64(m.Eon) != n.cfgIdx || m.Extra != nil {
 			a.T = "keys?"
 		}
 	default:
@@ -378,13 +412,13 @@ func (n *Net) find(m AbsMsg, dest int) int {
 }
 
 // trigger feeds one decryption trigger into the real KeyShareHandler service of node i and waits
-// for the event's result. The error is returned by class.
-func (n *Net) trigger(i int) string {
+// for the event's result (the trigger of round r). The error is returned by class.
+func (n *Net) trigger(i, r int) string {
 	nd := n.nodes[i]
 	if nd == nil {
 		return "harness: no node " + fmt.Sprint(i)
 	}
-	ev := broker.NewEvent(&epochkghandler.DecryptionTrigger{BlockNumber: uint64(n.actBlock + 1), IdentityPreimages: n.identities()})
+	ev := broker.NewEvent(&epochkghandler.DecryptionTrigger{BlockNumber: uint64(n.actBlock + 1), IdentityPreimages: n.identities(r)})
 	select {
 	case nd.trigC <- ev:
 	case <-time.After(20 * time.Second):
@@ -529,15 +563,19 @@ func (n *Net) Tables() []any {
 			sort.Ints(l)
 			shares[id] = l
 		}
-		out = append(out, map[string]any{"shares": shares, "keys": keys, "sigs": []int{}, "cur": false, "ptr": "init"})
+		sigs := make([][]int, len(n.rounds)) // core flavour: no signatures, no current trigger, no tx pointer
+		for r := range sigs {
+			sigs[r] = []int{}
+		}
+		out = append(out, map[string]any{"shares": shares, "keys": keys, "sigs": sigs, "cur": 0, "ptr": -1})
 	}
 	return out
 }
 
 // Judge is the per-keyper final key judgement of the schedule: for every identity and keyper whether
 // a decryption_key row exists, the fingerprint of its bytes and whether it decrypts the ciphertext.
-func (n *Net) Judge() []any {
-	var out []any
+func (n *Net) Judge() map[string]any {
+	out := map[string]any{}
 	for _, id := range n.ids {
 		row := []any{}
 		for k := 0; k < n.n; k++ {
@@ -554,7 +592,7 @@ func (n *Net) Judge() []any {
 			}
 			row = append(row, e)
 		}
-		out = append(out, row)
+		out[id] = row
 	}
 	return out
 }
